@@ -956,9 +956,6 @@ func run(c *lib.Ctx) {
 		if c.Skip(jb.idx) {
 			return
 		}
-		if only := os.Getenv("VERIF_ONLY_STRATUM"); only != "" && only != jb.stratum { // debugging aid
-			return
-		}
 		if atomic.LoadInt32(&hung) >= 3 {
 			c.Count("cases_skipped_after_watchdog", 1)
 			return
